@@ -88,6 +88,7 @@ fn main() {
         "C10" => {
             report = Report::new("C10", "EVERY file (header aside) of scenario archives x {delete, truncate 0, truncate half, garbage} plus sampled bit flips; then versions, list and restore of every band, validate full and quick, and (for deleted/emptied files) a new backup + restore, each under catch_unwind and a timeout; all cases non-trivial; distinct by seed, file and damage");
             damage::run_c10(&tier, seed, &mut report);
+            damage::run_c10_malformed(&tier, seed, &mut report);
         }
         "C13" => {
             report = Report::new("C13", "generated histories (as C02: option combinations, interrupted and resumed backups, deletes, gc); after EVERY mutating step the real archive is decoded by an independent reader and checked clause by clause against doc/format.md, and the Lean predicate Conforms is evaluated on it; one case per (history, step); all non-trivial");
